@@ -6,6 +6,7 @@ import (
 	"errors"
 	"fmt"
 	"io"
+	"strings"
 
 	"github.com/multiformats/go-multihash"
 
@@ -210,6 +211,17 @@ func runC02(c any, x *kit.Ctx) {
 		return C02Case{Seq: cs.Seq, Cont: cs.Cont, Roots: cs.Roots, Part: cs.Part, Mut: &mut}
 	}
 
+	// loaders (LoadCar into a store) hand blocks to Put/PutMany: which of several copies of a block,
+	// and in which order within a batch, is not fixed by the property; they are judged as a set
+	isLoader := func(rk string) bool { return strings.Contains(rk, "-load") }
+	among := func(b refcar.Block, n int) bool { // b is one of the first n sections of the archive
+		for j := 0; j < n && j < len(pl.Sections); j++ {
+			if bytes.Equal(b.Cid, pl.Sections[j].Cid) && bytes.Equal(b.Data, pl.Sections[j].Data) {
+				return true
+			}
+		}
+		return false
+	}
 	checkIntact := func(r *drv.ReadResultC02, rk string, mut C02Mut, limit int) {
 		// (a) everything handed out hashes to its CID, and equals the original prefix
 		skip := drv.IsSkipKind(rk)
@@ -225,6 +237,13 @@ func runC02(c any, x *kit.Ctx) {
 			if err != nil || !ok {
 				x.FailCase(mcase(mut), "c02:corrupt-block-returned:"+rk+":"+mut.Kind, "reader %s returned block #%d whose bytes do not hash to its CID (%v) under mutation %+v", rk, i, err, mut)
 				return
+			}
+			if isLoader(rk) {
+				if limit >= len(r.Blocks) && !among(b, limit) {
+					x.FailCase(mcase(mut), "c02:wrong-block-before-damage:"+rk+":"+mut.Kind, "loader %s delivered block #%d, which is none of the %d sections before the damage (mutation %+v)", rk, i, limit, mut)
+					return
+				}
+				continue
 			}
 			if i < limit && (!bytes.Equal(b.Cid, pl.Sections[i].Cid) || !bytes.Equal(b.Data, pl.Sections[i].Data)) {
 				x.FailCase(mcase(mut), "c02:wrong-block-before-damage:"+rk+":"+mut.Kind, "reader %s block #%d differs from the original although the damage is later (mutation %+v)", rk, i, mut)
@@ -247,6 +266,10 @@ func runC02(c any, x *kit.Ctx) {
 			checkIntact(r, rk, mut, si)
 			if r.OpenErr == nil && r.Err == nil {
 				x.FailCase(mcase(mut), "c02:flip-undetected:"+rk, "reader %s completed cleanly over an archive with bit %d of byte %d flipped (section %d)", rk, bit, pos, si)
+			} else if len(r.Blocks) > si && isLoader(rk) {
+				// a loader that goes on behind a damaged section and reports it at the end: every
+				// delivered block was verified above, and the damage is reported
+				x.Outcome("beyond-statement:loader-delivers-behind-damage|" + rk)
 			} else if len(r.Blocks) > si {
 				x.FailCase(mcase(mut), "c02:flip-late:"+rk, "reader %s returned %d blocks but section %d is damaged", rk, len(r.Blocks), si)
 			}
@@ -387,6 +410,33 @@ func runC02(c any, x *kit.Ctx) {
 		for _, rk := range scanning {
 			r := drv.ReadC02(rk, x.Dir, file, drv.Opts{}, 2)
 			x.Eval(1)
+			if isLoader(rk) && r.OpenErr == nil && r.Err == nil {
+				// as a set: nothing foreign, nothing corrupt, every block of the archive delivered
+				bad := ""
+				for i, b := range r.Blocks {
+					if ok, err := refcar.VerifyBlock(b.Cid, b.Data); err != nil || !ok {
+						bad = fmt.Sprintf("delivered block #%d does not hash to its CID", i)
+					} else if !among(b, len(pl.Sections)) {
+						bad = fmt.Sprintf("delivered block #%d is not in the archive", i)
+					}
+				}
+				for j, s := range pl.Sections {
+					found := false
+					for _, b := range r.Blocks {
+						found = found || (bytes.Equal(b.Cid, s.Cid) && bytes.Equal(b.Data, s.Data))
+					}
+					if !found {
+						bad = fmt.Sprintf("section #%d was not delivered", j)
+					}
+				}
+				if len(r.Blocks) > len(pl.Sections) {
+					bad = fmt.Sprintf("%d blocks delivered from %d sections", len(r.Blocks), len(pl.Sections))
+				}
+				if bad != "" {
+					x.Fail("c02:valid-wrong-block:"+rk, "loader %s on a VALID archive: %s", rk, bad)
+				}
+				continue
+			}
 			if r.OpenErr != nil || r.Err != nil || len(r.Blocks) != len(pl.Sections) {
 				x.Fail("c02:valid-rejected:"+rk, "reader %s fails on the unmutated archive: %v %v (%d of %d blocks)", rk, r.OpenErr, r.Err, len(r.Blocks), len(pl.Sections))
 				continue
@@ -408,8 +458,20 @@ func runC02(c any, x *kit.Ctx) {
 					break
 				}
 			}
+			// what a reader does when called again after its clean end is not part of the statement
+			// (BlockReader.Next documents io.EOF, the other readers document nothing): a block handed
+			// out there is a violation only if its bytes do not hash to its CID
 			if len(r.PostBlocks) > 0 {
-				x.Fail("c02:block-after-eof:"+rk, "reader %s handed out %d block(s) when called again after its clean end of archive", rk, len(r.PostBlocks))
+				x.Outcome("beyond-statement:block-after-eof|" + rk)
+			}
+			for i, b := range r.PostBlocks {
+				if drv.IsSkipKind(rk) {
+					continue
+				}
+				if ok, err := refcar.VerifyBlock(b.Cid, b.Data); err != nil || !ok {
+					x.Fail("c02:block-after-eof:"+rk, "reader %s, called again after its clean end of archive, handed out block #%d whose bytes do not hash to its CID (%v)", rk, i, err)
+					break
+				}
 			}
 			for _, e := range r.PostErrs {
 				x.Outcome("after-eof|" + c02ErrClass("next", e))
@@ -427,7 +489,13 @@ func runC02(c any, x *kit.Ctx) {
 			ri := drv.RootInterleave(file, file)
 			x.Eval(2)
 			if len(ri.APost) > 0 {
-				x.Fail("c02:block-after-eof:root-reader:interleaved", "root CarReader A handed out %d block(s) after its clean end while a second reader was open", len(ri.APost))
+				x.Outcome("beyond-statement:block-after-eof|root-reader:interleaved")
+			}
+			for i, b := range ri.APost {
+				if ok, err := refcar.VerifyBlock(b.Cid, b.Data); err != nil || !ok {
+					x.Fail("c02:block-after-eof:root-reader:interleaved", "root CarReader A, called after its clean end while a second reader was open, handed out block #%d whose bytes do not hash to its CID (%v)", i, err)
+					break
+				}
 			}
 			bad := ri.A.OpenErr != nil || ri.B.OpenErr != nil || ri.A.Err != nil || ri.B.Err != nil || len(ri.B.Blocks) != len(pl.Sections) || len(ri.A.Blocks) != len(pl.Sections)
 			if !bad {
@@ -601,6 +669,14 @@ func runC02(c any, x *kit.Ctx) {
 					x.Fail("c02:unverifiable-block-returned:"+rk, "reader %s returned block #%d although its bytes cannot be checked against its CID (%v)", rk, i, err)
 					break
 				}
+				if isLoader(rk) {
+					// a loader's deliveries are judged as a set (see checkIntact)
+					if unknown >= len(r.Blocks) && !among(b, unknown) {
+						x.Fail("c02:wrong-block-before-damage:"+rk+":"+mut.Kind, "loader %s delivered block #%d, which is none of the %d sections before the unverifiable one", rk, i, unknown)
+						break
+					}
+					continue
+				}
 				if i < unknown && (!bytes.Equal(b.Cid, pl.Sections[i].Cid) || !bytes.Equal(b.Data, pl.Sections[i].Data)) {
 					x.Fail("c02:wrong-block-before-damage:"+rk+":"+mut.Kind, "reader %s block #%d differs from the original", rk, i)
 					break
@@ -748,9 +824,9 @@ func init() {
 		Run:    runC02,
 		Decode: kit.DecodeAs[C02Case],
 		Rule: "for every archive up to the bound in 4 containers (CARv1, CARv2 with index, padded CARv2 with index, CARv2 without index): " +
-			"(1) the unmutated archive through every reader: exactly the original blocks (compared after the scan), nothing handed out by 2 further Next calls after the clean end, Inspect(true) accepts, two root readers with overlapping lifetimes; " +
-			"(2) EVERY single-bit flip of every block-data and CID-digest byte: reported by every verifying reader, nothing from the damaged section on returned; " +
-			"(3) EVERY single-bit flip of every other byte of the block sections (section length, CID version/codec/hash code/digest length; with and without ZeroLengthSectionAsEOF), and of every byte before them (pragma, CARv2 header, padding, CARv1 header) on the empty archive and 3 one-block archives per container and root list: every block returned hashes to its CID and the blocks before the damage are the original ones; " +
+			"(1) the unmutated archive through every reader: exactly the original blocks in archive order from the iterating readers, from the loaders (LoadCar into a store) every block of the archive at least once and nothing else, in any order (compared after the scan); a block handed out by 2 further Next calls after the clean end must hash to its CID (that one is handed out at all is recorded as a beyond-statement outcome); Inspect(true) accepts; two root readers with overlapping lifetimes; " +
+			"(2) EVERY single-bit flip of every block-data and CID-digest byte: reported by every verifying reader, nothing from the damaged section on returned by the iterating readers (a loader that delivers verified blocks from behind the damage and reports the damage at the end is recorded as a beyond-statement outcome); " +
+			"(3) EVERY single-bit flip of every other byte of the block sections (section length, CID version/codec/hash code/digest length; with and without ZeroLengthSectionAsEOF), and of every byte before them (pragma, CARv2 header, padding, CARv1 header) on the empty archive and 3 one-block archives per container and root list: every block returned hashes to its CID and the blocks before the damage are the original ones (position by position for the iterating readers; for the loaders as a set, when no more blocks were delivered than precede the damage); " +
 			"(4) EVERY proper prefix not ending on a section boundary, and for CARv2 EVERY header DataSize ending the payload at such an offset with the file complete, with and without ZeroLengthSectionAsEOF: reported as an error other than io.EOF by every scanning reader, only complete sections returned; " +
 			"(5) archives holding a block whose hash function is not registered: never handed out, Inspect(true) fails; (6) 300-block and 1100-block archives with a fixed mutant set at the 4096-byte buffer boundaries, the 1000-block batch boundary and both ends. " +
 			"readers = BlockReader.Next and SkipNext over 6 source kinds (bytes.Reader, Read-only stream, *os.File, Reader+ByteReader, data-with-EOF reader, one-byte reader), root CarReader (3 source kinds) / LoadCar (plain and batch store), internal carv1 reader (4 source kinds) / loader (plain and batch store), Inspect(true) over 3 io.ReaderAt kinds; " +
@@ -774,6 +850,8 @@ func init() {
 			"a CARv2 header whose DataSize ends the payload inside a section is treated as a truncation of the archive's block sections (the payload the readers are given is a proper prefix)",
 			"flips outside digest/data bytes need not be reported (a flipped codec gives a different but valid block); a digest truncated to 0 bytes matches any data",
 			"sources honour the io.Reader / io.ReaderAt contracts (data together with io.EOF and short reads are allowed by them)",
-			"what a reader returns when called again after an ERROR is not constrained; after a clean end it must not produce blocks"},
+			"what a reader returns when called again after an ERROR is not constrained; after a clean end a block it hands out must still hash to its CID, that it hands one out is beyond the statement (outcome beyond-statement:block-after-eof)",
+			"the statement does not fix how often a loader Puts a block the archive repeats, nor the order in which it hands blocks to Put/PutMany, nor that it stops delivering at the first damaged section: loaders are judged as sets, and blocks delivered from behind a reported damage are an outcome (beyond-statement:loader-delivers-behind-damage)",
+			"a valid archive must be read completely by every reader (c02:valid-rejected): not stated by the property, kept as the non-vacuity condition of every mutant verdict"},
 	})
 }
